@@ -489,3 +489,49 @@ Definition top_values_res (efs : list str) (esf : str) (schema : json) : res (li
 
 Definition top_values (efs : list str) (esf : str) (schema : json) : xres :=
   to_xres (top_values_res efs esf schema).
+
+(* ------------------------------------------------------------------ *)
+(* 6. _find_parameter_examples_definition (examples.py:163-179): the    *)
+(*    raw parameter objects of the operation followed by those of the   *)
+(*    path item, each after $ref resolution.  A parameter is identified  *)
+(*    by its name AND its location (fix b8949ae5).  KeyError on a       *)
+(*    missing name / field and the final RuntimeError are Err Raised.   *)
+(*    Note on extract_top_level: the example fields are iterated in      *)
+(*    sorted order (fix 353ffa52): example before x-example, which is    *)
+(*    the order of the list [s_example; s_x_example] handed to singles.  *)
+(* ------------------------------------------------------------------ *)
+Definition s_name : str := [110;97;109;101]%N.   (* name *)
+Definition s_in : str := [105;110]%N.            (* in *)
+
+Definition name_is (name : str) (p : json) : bool :=
+  match obj_get s_name p with Some n => json_eqb n (JStr name) | None => false end.
+Definition in_is (loc : str) (p : json) : bool :=
+  match obj_get s_in p with Some l => json_eqb l (JStr loc) | None => false end.   (* parameter.get(in) == location *)
+Definition has_name (p : json) : bool :=
+  match obj_get s_name p with Some _ => true | None => false end.
+
+Fixpoint find_param_examples (params : list json) (name loc field : str) : res json :=
+  match params with
+  | [] => Err Raised                                     (* RuntimeError: definition is not found *)
+  | p :: rest =>
+      if has_name p then
+        if name_is name p && in_is loc p then
+          match obj_get field p with Some d => Ok d | None => Err Raised end      (* parameter[field_name] *)
+        else find_param_examples rest name loc field
+      else Err Raised                                    (* parameter[name]: KeyError *)
+  end.
+
+(* SENTINEL, not the code any more: the rule before b8949ae5 matched by name only *)
+Fixpoint find_param_examples_by_name_only (params : list json) (name field : str) : res json :=
+  match params with
+  | [] => Err Raised
+  | p :: rest =>
+      if has_name p then
+        if name_is name p then
+          match obj_get field p with Some d => Ok d | None => Err Raised end
+        else find_param_examples_by_name_only rest name field
+      else Err Raised
+  end.
+
+Definition xres1 (r : res json) : xres :=
+  match r with Ok v => XOk [v] | Err Raised => XRaises | Err OutOfFuel => XFuel end.
